@@ -5,25 +5,25 @@ CONSTANTS
   TokChain <- Seq1
   TokContract <- Seq1
   TokDenom <- Seq1
-  Amounts = {2}
+  Amounts = {1, 2, 3, 5}
   InitBal = 4
   BatchEvery = 50
   TimeoutBlocks = 300
-  Jumps = {50, 301}
+  Jumps = {1, 57598, 57599, 57600}
   Period = 57600
-  TaxRates <- RateHalf
-  Limits = {3}
+  TaxRates <- Rates
+  Limits = {3, 5}
   EstValues = {1}
-  MaxTx = 2
-  MaxBatch = 2
-  MaxClaims = 1
-  MaxHeight = 351
-  Family = "funds"
-  EmitAt = 0
+  MaxTx = 8
+  MaxBatch = 4
+  MaxClaims = 2
+  MaxHeight = 100000000
+  Family = "limits"
+  EmitAt = 12
   MaxK = 2
-  MaxOps = 7
-VIEW GView
+  MaxOps = 12
 INIT GInit
-NEXT GNextC
+NEXT GNext
 CONSTRAINT GConstr
+INVARIANT Emit
 CHECK_DEADLOCK FALSE
